@@ -548,7 +548,14 @@ pub mod ssse3 {
     pub unsafe fn of1024(cv: &mut X8) {
         of1024_impl(cv)
     }
-    pub use super::aes::{init1024, init512};
+    #[target_feature(enable = "sse2", enable = "ssse3")]
+    pub unsafe fn init512(cv: X4) -> X4 {
+        init512_impl(cv)
+    }
+    #[target_feature(enable = "sse2", enable = "ssse3")]
+    pub unsafe fn init1024(cv: X8) -> X8 {
+        init1024_impl(cv)
+    }
 }
 #[cfg(target_feature = "aes")]
 pub use self::aes as ssse3;
